@@ -2,17 +2,10 @@
    Only property theorems (closed by [exact]) and [Print Assumptions].
    Model: Model/MuxConcPar.v over Model/MuxConcSeq.v; proofs Proofs/MuxConc*.v.
 
-   Findings on the pinned tree (faithful model):
-     F1  the preload-hint closure returns on s.closed WITHOUT unlocking Muxer.mutex: the
-         mutex stays held with nobody inside; every later request hangs in Lock()
-                                       -> c07_mutex_free_refuted (global deadlock witness)
-     F2  muxerStream.closed is set after the broadcast, outside the mutex: a waiter that
-         re-checks first goes back to sleep and nobody ever wakes it
-                                       -> c07_all_terminate_refuted
-   The partial theorems exclude exactly these: [nobody_leaked] / [c_owner c = None] (no hint
-   closure has taken its closed exit) and "the requester is not asleep" together with
-   c07_stuck_only_f2, which says that whoever is still asleep after Close's broadcast went to
-   sleep AFTER that broadcast (F2's schedule) and is not the multivariant handler. *)
+   The model follows /repo after the repairs 08d316e (the preload-hint closure unlocks on its
+   closed exit: former finding F1) and c04d523 (Close sets every stream.closed under the mutex,
+   before Unlock / Broadcast: former finding F2); every theorem is stated at full strength,
+   there is no _partial / _refuted. *)
 From Coq Require Import List ZArith Bool String.
 From GoHls Require Import Lib.MuxSched Model.MuxConcSeq Model.MuxConcSpec Model.MuxConcPar
   Proofs.MuxConcSeqA Proofs.MuxConcInvA Proofs.MuxConcInvB Proofs.MuxConcInvC Proofs.MuxConcInvD
@@ -27,36 +20,22 @@ Theorem c07_inv_reachable : forall m prog reqs sched,
 Proof. exact Inv_reachable. Qed.
 Print Assumptions c07_inv_reachable.
 
-(* "the owner is a live thread whose pc lies in a critical section" - or a requester that left
-   a handler with the mutex held *)
+(* the owner of the mutex is a live thread whose pc lies in a critical section, and conversely *)
 Theorem c07_mutex_owner : forall m prog reqs sched,
   fresh m -> mutex_inv (crun (cinit m prog reqs) sched).
-Proof. intros m prog reqs sched F. exact (i_mutex _ (Inv_reachable m prog reqs sched F)). Qed.
+Proof. exact mutex_owner_reachable. Qed.
 Print Assumptions c07_mutex_owner.
 
-Theorem c07_mutex_free_partial : forall c,
-  Inv c -> nobody_inside c -> nobody_leaked c -> c_owner c = None.
-Proof. exact mutex_free_partial. Qed.
-Print Assumptions c07_mutex_free_partial.
+(* no internal lock is left held: whenever no thread is inside a handler or inside a writer
+   operation the mutex is free *)
+Theorem c07_mutex_free : forall c, Inv c -> nobody_inside c -> c_owner c = None.
+Proof. exact mutex_free. Qed.
+Print Assumptions c07_mutex_free.
 
-(* the only way to leak: the preload-hint closure evaluated on a closed stream *)
-Theorem c07_leak_origin : forall m prog reqs sched i r,
-  nth_error (c_reqs (crun (cinit m prog reqs) sched)) i = Some r -> r_leaked r = true ->
-  exists p rest k id s, sched = p ++ TR i :: rest /\
-    let c := crun (cinit m prog reqs) p in
-    req_pc c i = Some (PTest (FHint k id)) /\
-    nth_error (m_streams (c_mux c)) k = Some s /\ s_closed s = true.
-Proof. exact leak_origin. Qed.
-Print Assumptions c07_leak_origin.
-
-Theorem c07_mutex_free_refuted :
-  let c := crun f1_init f1_sched in
-  c_wpc c = WFinished /\ done_with c 0 = Some R500 /\ req_pc c 1 = Some PStart /\
-  c_owner c = Some (TR 0) /\
-  let c2 := crun c [TR 1; TR 1]%nat in
-  req_pc c2 1 = Some (PLock FMulti) /\ (forall sched', crun c2 sched' = c2).
-Proof. exact mutex_free_refuted. Qed.
-Print Assumptions c07_mutex_free_refuted.
+Theorem c07_returned_holds_nothing : forall c i r resp,
+  Inv c -> nth_error (c_reqs c) i = Some r -> r_pc r = PDone resp -> c_owner c <> Some (TR i).
+Proof. exact returned_holds_nothing. Qed.
+Print Assumptions c07_returned_holds_nothing.
 
 (* Close, once it has taken the mutex, returns by its own steps *)
 Theorem c07_close_completes : forall c,
@@ -65,46 +44,48 @@ Theorem c07_close_completes : forall c,
 Proof. exact close_completes. Qed.
 Print Assumptions c07_close_completes.
 
-(* a requester that was waiting and has been woken completes by its own steps, non-200 *)
-Theorem c07_all_terminate_partial : forall c i r f,
-  Inv c -> hint_prop (c_mux c) -> c_wpc c = WFinished -> c_owner c = None ->
-  nth_error (c_reqs c) i = Some r -> r_pc r = PWoken f ->
-  exists k, (k <= 4)%nat /\ exists resp,
-    done_with (crun c (repeat (TR i) k)) i = Some resp /\ is_200 resp = false.
-Proof. exact woken_terminates_after_close. Qed.
-Print Assumptions c07_all_terminate_partial.
-
-(* who can still be asleep once Close has broadcast: only F2's victims *)
-Theorem c07_stuck_only_f2 : forall m prog reqs sched i r f,
+(* after Close's broadcast nobody is asleep (every waiter has been woken) and nobody falls
+   asleep again *)
+Theorem c07_nobody_asleep_after_close : forall m prog reqs sched i r f,
   fresh m ->
   let c := crun (cinit m prog reqs) sched in
   close_broadcast_done (c_wpc c) = true ->
-  nth_error (c_reqs c) i = Some r -> r_pc r = PWaiting f ->
-  r_slept_late r = true /\ f <> FMulti.
-Proof. exact stuck_only_f2. Qed.
-Print Assumptions c07_stuck_only_f2.
+  nth_error (c_reqs c) i = Some r -> r_pc r <> PWaiting f.
+Proof. exact nobody_asleep_after_close. Qed.
+Print Assumptions c07_nobody_asleep_after_close.
 
-Theorem c07_all_terminate_refuted :
-  let c := crun f2_init f2_sched in
-  c_wpc c = WFinished /\ c_owner c = None /\ req_pc c 0 = Some (PWaiting (FPlain 0 false)) /\
-  (forall sched', req_pc (crun c sched') 0 = Some (PWaiting (FPlain 0 false))).
-Proof. exact all_terminate_refuted. Qed.
-Print Assumptions c07_all_terminate_refuted.
-
-(* requests issued after Close returned respond by their own steps, without waiting *)
-Theorem c07_later_requests_partial : forall c i r,
-  Inv c -> hint_prop (c_mux c) -> c_wpc c = WFinished -> c_owner c = None ->
-  nth_error (c_reqs c) i = Some r -> (forall f, r_pc r <> PWaiting f) ->
-  exists k, (k <= 6)%nat /\ exists r',
-    nth_error (c_reqs (crun c (repeat (TR i) k))) i = Some r' /\
-    (exists resp, r_pc r' = PDone resp) /\ r_waits r' = r_waits r.
-Proof. exact later_requests_after_close. Qed.
-Print Assumptions c07_later_requests_partial.
-
-Theorem c07_no_wait_after_close : forall c, phase_inv c -> c_wpc c = WFinished ->
+Theorem c07_no_wait_after_close : forall c, phase_inv c -> closing (c_wpc c) = true ->
   forall q f, test (c_mux c) q f <> TWait.
 Proof. exact no_wait_after_close. Qed.
 Print Assumptions c07_no_wait_after_close.
+
+(* every request - a woken waiter, a request in flight, a request issued later - completes by
+   its own steps (at most 6), never waits, and leaves the mutex free *)
+Theorem c07_all_terminate : forall c i r,
+  Inv c -> hint_prop (c_mux c) -> close_broadcast_done (c_wpc c) = true -> c_owner c = None ->
+  nth_error (c_reqs c) i = Some r ->
+  exists k, (k <= 6)%nat /\ exists r',
+    nth_error (c_reqs (crun c (repeat (TR i) k))) i = Some r' /\
+    (exists resp, r_pc r' = PDone resp) /\ r_waits r' = r_waits r /\
+    c_owner (crun c (repeat (TR i) k)) = None.
+Proof. exact all_terminate_after_close. Qed.
+Print Assumptions c07_all_terminate.
+
+(* a request that was blocked inside the muxer completes with a non-200 status *)
+Theorem c07_waiters_non200 : forall c i r f,
+  Inv c -> hint_prop (c_mux c) -> closing (c_wpc c) = true -> c_wpc c <> WCrashed -> c_owner c = None ->
+  nth_error (c_reqs c) i = Some r -> r_pc r = PWoken f ->
+  exists k, (k <= 4)%nat /\ exists resp,
+    done_with (crun c (repeat (TR i) k)) i = Some resp /\ is_200 resp = false /\
+    c_owner (crun c (repeat (TR i) k)) = None.
+Proof. exact woken_terminates_after_close. Qed.
+Print Assumptions c07_waiters_non200.
+
+(* the hypothesis hint_prop holds in every reachable state of a Low-Latency muxer *)
+Theorem c07_hint_prop_reachable : forall m prog reqs sched,
+  m_variant m = LL -> paths_ok m -> hint_prop (c_mux (crun (cinit m prog reqs) sched)).
+Proof. exact hint_prop_reachable. Qed.
+Print Assumptions c07_hint_prop_reachable.
 
 (* every segment file has been removed when Close returns *)
 Theorem c07_files_removed : forall m prog reqs sched,
@@ -113,6 +94,17 @@ Theorem c07_files_removed : forall m prog reqs sched,
   m_files (c_mux (crun (cinit m prog reqs) sched)) = [].
 Proof. exact files_removed. Qed.
 Print Assumptions c07_files_removed.
+
+(* regression: the two schedules that refuted the unrepaired code now end well *)
+Example c07_former_f2 :
+  let c := crun f2_init f2_sched in
+  c_wpc c = WFinished /\ c_owner c = None /\ done_with c 0 = Some R500.
+Proof. exact f2_regression. Qed.
+
+Example c07_former_f1 :
+  let c := crun f1_init f1_sched in
+  c_wpc c = WFinished /\ done_with c 0 = Some R500 /\ done_with c 1 = Some R500 /\ c_owner c = None.
+Proof. exact f1_regression. Qed.
 
 (* hypotheses are satisfiable: a run with a pending multivariant request, Close, wake-up *)
 Example c07_hyps :
